@@ -914,6 +914,18 @@ def gen_check(quick, seed):
             add("x = 1\nif x { y = [1, {\"k\": %s}] }" % use.split(" = ")[-1].split("{ ")[-1].split("\n")[0].rstrip(" }"), False,
                 "function removed from one of the two tables (%s), nested position" % fld)
             out[-1][fld] = [f]
+    # a pattern name declared in ANOTHER branch of the same if statement (or in a block that has ended) is an unknown name where it is used;
+    # declared in an enclosing block before the statement it is known in every branch
+    G = 'grok(a, "%{sib:w}")'
+    AP = 'add_pattern("sib", "\\\\d+")'
+    sib = [("if x {\n%s\n} else {\n%s\n}", False), ("if x {\n%s\n} elif y {\n%s\n}", False), ("if x {\n%s\n} elif y {\nz = 1\n} else {\n%s\n}", False),
+           ("if x {\n%s\n} elif %s {\nz = 1\n}", False), ("if x {\n%s\n} else {\nfor v in [1] {\n%s\n}\n}", False),
+           ("if x {\nif y {\n%s\n}\n} else {\n%s\n}", False), ("if x {\n%s\n}\n%s", False), ("for v in [1] {\n%s\n}\n%s", False),
+           ("if x {\nz = 1\n} elif y {\n%s\n} else {\nq = [%s]\n}", False), ("if x {\n%s\n} else {\nz = 1\n}\nif y {\n%s\n}", False),
+           ("%s\nif x {\nz = 1\n} else {\n%s\n}", True), ("%s\nif x {\nz = 1\n} elif %s {\nz = 2\n}", True),
+           ("if x {\n%s\nif y {\nz = 1\n} else {\n%s\n}\n}", True), ("for v in [1] {\n%s\nif y {\nz = 1\n} elif z {\n%s\n}\n}", True)]
+    for t, ok in sib:
+        add(t % (AP, G), False, "pattern declared in a sibling branch / ended block" if not ok else "pattern declared in an enclosing block")
     for f, use in [("one", "x = [1, 2][one(0):]"), ("void", "void()")]:
         add(use, True, "v2 function removed from the table", without=[f])
         add(use, True, "v2 same program with the full table")
@@ -1095,6 +1107,19 @@ def gen_builtins(quick, seed):
     for t in seqs:
         n += 1
         out.append(ps("bi:%d" % n, t, pt={"meas": "m", "tags": dict(STD_PT["tags"]), "fields": dict(STD_PT["fields"], fj='[1,"a",null]')}, tag="builtin sequences"))
+    # collections as format operands: nested, empty, holding nil / bool / text with blanks, several map keys (printed in key order), and the
+    # SAME list or map reachable twice (twice in one list, under two keys, once directly and once nested): a value that is shared is not a
+    # value that contains itself
+    colls = ['a = [1, 2]\nv = [a, a]', 'a = [1, 2]\nv = {"p": a, "q": a}', 'a = {"x": 1}\nv = [a, [a]]', 'a = ["s t", true, nil]\nv = [a, 7, a]',
+             'a = [1]\nb = [a, a]\nv = {"k": b, "j": [b, a]}', 'v = []', 'v = {}', 'v = [[], {}, [[]]]', 'v = {"b": 2, "a": 1, "ab": [3], "B": nil}',
+             'v = [1, "two", false, nil, [3, [4, [5]]]]', 'a = {}\nv = [a, a]', 'a = []\nv = {"x": a, "y": a}', 'a = [1, 2]\nv = a[0:1]\nw = [a, v, a]\nv = w']
+    sinks = ['strfmt(k, "%v", v)', 'strfmt(k, "<%v|%v>", v, v)', 'printf("%v;%v\\n", v, 1)', 'strfmt(k, "%v %s", v, "x")\nstrfmt(k2, "%v", v)',
+             'for i = 0; i < 2; i = i + 1 {\nstrfmt(k, "%v", v)\nprintf("%v", v)\n}']
+    for c in colls:
+        for sk in sinks:
+            n += 1
+            out.append(ps("bi:%d" % n, c + "\n" + sk + "\nprobe(k)", pt={"meas": "m", "tags": dict(STD_PT["tags"]), "fields": dict(STD_PT["fields"])},
+                          tag="collections (nested, shared sub-collections) as format operands"))
     return out
 
 
@@ -1198,6 +1223,14 @@ def gen_extract(quick, seed):
             else:
                 lines.append("ts = %s" % _q(t["s"]))
             add("\n".join(lines + [call, "probe(ts)"]), pt, "default_time (%s subject)" % sit)
+    # the default zone is the zone the host process is in AT THE TIME OF THE CALL: the same zone-less call under a process zone that
+    # changes from one run to the next (pt.lz: the harness sets time.Local for the run; the model reads the catalog entry of that zone)
+    for t in cat["time"]:
+        if t["tz"] in ("Asia/Shanghai", "Europe/London", "America/New_York", "Asia/Tokyo", "Asia/Kolkata", "Australia/Sydney", "Europe/Berlin"):
+            pt = {"meas": "m", "tags": dict(base_tags), "fields": {"fi": 7, "ts": t["s"]}, "lz": t["tz"]}
+            add("default_time(ts)\nprobe(ts)", pt, "default_time without a zone, process zone " + t["tz"])
+            add("default_time(ts)\nprobe(ts)", {"meas": "m", "tags": dict(base_tags), "fields": {"fi": 7, "ts": t["s"]}},
+                "default_time without a zone, process zone UTC again")
     add("default_time(nosuch)\nprobe(1)", {"meas": "m", "tags": {}, "fields": {"fi": 7}}, "default_time: absent subject")
     add('default_time(fi)\nprobe(fi)', {"meas": "m", "tags": {}, "fields": {"fi": 7}}, "default_time: non-string subject")
     # datetime, xml, sql_cover
